@@ -9,9 +9,10 @@ from runner import Failure, Outcome, h64
 from schema import emit_schema, o_str
 
 SCHEMA = [o_str("s", "S0"), o_str("t", "T0")]
-ENV = {"a": "VAL", "e": "", "m": "q\"\\${'}\nz"}
+LONGNAME = "L" * 260
+ENV = {"a": "VAL", "e": "", "m": "q\"\\${'}\nz", LONGNAME: "LONGV", "L" * 255: "V255", "L" * 256: "V256"}
 ALPHA = {
-    "dq": ["a", "n", "x", "e", "0", "1", "7", "8", "\\", "\"", "'", "$", "{", "}", ":", "-", " ", "\n", "#", "/", "*", "=", "\xe9"],
+    "dq": ["a", "n", "x", "e", "0", "1", "7", "8", "\\", "\"", "'", "$", "{", "}", ":", "-", " ", "\n", "\r", "#", "/", "*", "=", "\xe9"],
     "sq": ["a", "n", "\\", "\"", "'", "$", "{", "}", " ", "\n", "#", "/", "*", "=", "\xe9"],
     "bare": ["a", "1", "\\", "\"", "'", "$", "{", "}", ":", "-", " ", "\n", "#", "/", "*", "=", ",", "\xe9"],
 }
@@ -21,7 +22,7 @@ ENV_FRAGS = ["${a}", "${n}", "${n:-d}", "${a:-d}", "${e}", "${e:-d}", "${n:d}", 
 ESC_FRAGS = ["\\n", "\\t", "\\r", "\\b", "\\f", "\\a", "\\e", "\\v", "\\\\", "\\\"", "\\'", "\\q", "\\$", "\\{", "\\ ", "\\\n", "\\0",
              "\\7", "\\07", "\\007", "\\0007", "\\101", "\\377", "\\400", "\\777", "\\8", "\\18", "\\1234", "\\x41", "\\x4", "\\x414",
              "\\xg", "\\x", "\\x00", "\\xff", "\\xFF", "\\X41", "\\N"]
-MISC_FRAGS = ["a", "b c", "\n", "\t", "#", "//", "/*", "*/", "/* c */", "# c\n", "// c\n", "\"", "'", "{", "}", "=", ",", "(", ")", "+=",
+MISC_FRAGS = ["a", "b c", "\r\n", "\n\r", "\x0b", "\x0c", "\n", "\t", "#", "//", "/*", "*/", "/* c */", "# c\n", "// c\n", "\"", "'", "{", "}", "=", ",", "(", ")", "+=",
               "+", "*", "\r", "\xe9", "\x01", "\x7f", "\xff", ";", "|", ":-"]
 
 
@@ -170,6 +171,13 @@ class C03:
                         buf = []
             if buf:
                 cases.append({"ctx": ctx, "lits": buf})
+        # long substitutions (name / default at and beyond typical fixed buffer sizes)
+        longs = []
+        for k in (30, 31, 32, 33, 63, 64, 65, 127, 128, 129, 250, 253, 254, 255, 256, 257, 258, 300, 1023, 1024, 1025, 4096, 70000):
+            longs += ["${n:-" + "d" * k + "}", "x${n:-" + "d" * k + "}y", "${" + "L" * k + "}", "${" + "L" * k + ":-dflt}", "${a:-" + "d" * k + "}",
+                      "d" * k, "\\n" * k, "${a}" * min(k, 2000)]
+        for ctx in ALPHA:
+            cases.append({"ctx": ctx, "lits": longs})
         r.run_cases(cases, chunksize=2)
         r.exhaustive = True
         r.run_hypothesis(400 if r.tier == "quick" else 6000)
